@@ -6,6 +6,8 @@ de.rs, tools.rs, serialized_length.rs, object_cache.rs::serialized_length); the 
 are regenerated from the sources on every run (`Clvm.Gen`).
 -/
 import ClvmModel.Serde.Classic
+import ClvmProofs.Lemmas.ClassicSer
+import ClvmProofs.Lemmas.ClassicCanon
 
 namespace Clvm.Props.C15
 open Clvm Clvm.Serde.Classic
@@ -34,5 +36,153 @@ theorem serlen_thresholds_eq_writer :
 theorem thresholds_fit_prefix_bits :
     ∀ k, k < 5 → thr Gen.writeAtomThresholds k = 2 ^ (6 + 7 * k) := by
   decide
+
+/-! ### the serializer produces the specification
+
+`serSpec` (`ClvmProofs/Lemmas/ClassicSpec.lean`) is the documented format written recursively
+with literal powers of two: `atomEnc b = prefix ++ b`, `serSpec (l . r) = 0xff :: serSpec l ++
+serSpec r`.  All theorems below are about trees whose atoms are shorter than 2^34 bytes (the
+format's maximum; longer atoms are refused by the serializer, `C29.too_long_atom`). -/
+
+/-- `node_to_stream` on an unlimited writer appends exactly `serSpec t` -/
+theorem ser_eq_spec (t : Tree) (ht : t.atomsBelow (2 ^ 34)) (out : Bytes) :
+    nodeToStream [t] { out := out, limit := none } = .ok { out := out ++ serSpec t, limit := none } := by
+  rw [nodeToStream_spec [t] _ (by simpa using ht)]
+  simp [Writer.fits, Writer.adv, serList]
+
+/-- `node_to_bytes_limit` returns `serSpec t` whenever it fits -/
+theorem ser_bytes_eq_spec (t : Tree) (ht : t.atomsBelow (2 ^ 34)) (L : Nat) (h : (serSpec t).length ≤ L) :
+    nodeToBytesLimit t L = .ok (serSpec t) := by
+  rw [nodeToBytesLimit_spec t ht, if_pos h]
+
+/-! ### round trip -/
+
+/-- `de_ser`: the decoder loop reads back one serialized tree and continues with the rest of
+the input and the rest of its work stack (continuations generalised) -/
+theorem de_ser (t : Tree) (ht : t.atomsBelow (2 ^ 34)) (rest : Bytes) (ops : List ParseOp)
+    (vals : List Tree) :
+    nodeFromStream (serSpec t ++ rest) (.sexp :: ops) vals = nodeFromStream rest ops (t :: vals) :=
+  nodeFromStream_ser t ht rest ops vals
+
+/-- `node_from_stream` on `serSpec t` followed by anything returns `t` and has consumed exactly
+`|serSpec t|` bytes -/
+theorem de_ser_consumed (t : Tree) (ht : t.atomsBelow (2 ^ 34)) (rest : Bytes) :
+    nodeFromBytesConsumed (serSpec t ++ rest) = .ok (t, (serSpec t).length) := by
+  unfold nodeFromBytesConsumed
+  rw [de_ser t ht, nodeFromStream]
+  simp
+
+/-- `node_from_bytes (serSpec t ++ rest) = t` -/
+theorem de_ser_bytes (t : Tree) (ht : t.atomsBelow (2 ^ 34)) (rest : Bytes) :
+    nodeFromBytes (serSpec t ++ rest) = .ok t := by
+  unfold nodeFromBytes
+  rw [de_ser t ht, nodeFromStream]
+
+/-- the full round trip through the real entry points: whatever the serializer returns decodes
+to the same tree, consuming everything -/
+theorem round_trip (t : Tree) (ht : t.atomsBelow (2 ^ 34)) (L : Nat) (b : Bytes)
+    (h : nodeToBytesLimit t L = .ok b) : nodeFromBytesConsumed b = .ok (t, b.length) := by
+  rw [nodeToBytesLimit_spec t ht] at h
+  split at h
+  · simp only [Except.ok.injEq] at h
+    subst h
+    simpa using de_ser_consumed t ht []
+  · cases h
+
+/-- the code is prefix-free: two serializations, each followed by anything, that agree as byte
+strings are serializations of the same tree followed by the same rest (`prefix_inj`) -/
+theorem prefix_inj (t t' : Tree) (ht : t.atomsBelow (2 ^ 34)) (ht' : t'.atomsBelow (2 ^ 34))
+    (r r' : Bytes) (h : serSpec t ++ r = serSpec t' ++ r') : t = t' ∧ r = r' := by
+  have h1 := de_ser_consumed t ht r
+  have h2 := de_ser_consumed t' ht' r'
+  rw [h, h2] at h1
+  simp only [Except.ok.injEq, Prod.mk.injEq] at h1
+  obtain ⟨rfl, hl⟩ := h1
+  exact ⟨rfl, List.append_cancel_left h⟩
+
+/-! ### canonical -/
+
+/-- `ser_canonical`: the serializer's output passes `is_canonical_serialization`.  The proof goes
+through `width_eq_iff`, which compares the extracted `min_value` table of `is_canonical_atom` with
+the format's header widths: with the pre-fix table (2^28 in the five-byte row) it does not check. -/
+theorem ser_canonical (t : Tree) (ht : t.atomsBelow (2 ^ 34)) :
+    isCanonicalSerialization (serSpec t) = .ok true := by
+  unfold isCanonicalSerialization
+  have hs := serSpec_size_le t
+  have hf : (serSpec t).length + 2 = ((serSpec t).length + 2 - t.size) + t.size := by omega
+  rw [hf, isCanonicalGo_ser t ht (serSpec t) 0 0 _ [] (by simp)]
+  have : (serSpec t).length + 2 - t.size = ((serSpec t).length + 1 - t.size) + 1 := by omega
+  rw [this, isCanonicalGo]
+  simp
+
+/-! ### lengths -/
+
+/-- `len_trusted`: `serialized_length_from_bytes_trusted` returns the length of the first tree -/
+theorem len_trusted (t : Tree) (ht : t.atomsBelow (2 ^ 34)) (rest : Bytes) :
+    serializedLengthTrusted (serSpec t ++ rest) = .ok (serSpec t).length := by
+  unfold serializedLengthTrusted
+  have hs := serSpec_size_le t
+  have hf : (serSpec t ++ rest).length + 2 = ((serSpec t ++ rest).length + 2 - t.size) + t.size := by
+    simp only [List.length_append]; omega
+  rw [hf, lenTrusted_ser t ht (serSpec t ++ rest) 0 0 _ rest (by simp)]
+  have : (serSpec t ++ rest).length + 2 - t.size = ((serSpec t ++ rest).length + 1 - t.size) + 1 := by
+    simp only [List.length_append]; omega
+  rw [this, lenTrusted]
+  simp
+
+/-- `len_atom`: `serialized_length_atom` (a `u32` function: atoms below 2^32 bytes) is the length
+of the atom's encoding -/
+theorem len_atom (b : Bytes) (hb : b.length < 2 ^ 32) : serializedLengthAtom b = (atomEnc b).length :=
+  serializedLengthAtom_eq b hb
+
+/-- `len_cache`: the object-cache `serialized_length` is the serialized length, as long as it is
+below the saturation point 2^64 - 1 of its `u64` arithmetic -/
+theorem len_cache (t : Tree) (ht : t.atomsBelow (2 ^ 32)) (hl : (serSpec t).length < 2 ^ 64) :
+    cacheSerializedLength t = (serSpec t).length :=
+  cacheSerializedLength_eq t ht hl
+
+/-! ### converse -/
+
+/-- `canonical_reser`: if an input decodes (consuming `n` bytes) and those `n` bytes are judged
+canonical, then re-serializing the decoded tree gives exactly the consumed bytes -/
+theorem canonical_reser (b : Bytes) (t : Tree) (n : Nat)
+    (hd : nodeFromBytesConsumed b = .ok (t, n))
+    (hc : isCanonicalSerialization (b.take n) = .ok true) :
+    t.atomsBelow (2 ^ 34) ∧ serSpec t = b.take n := by
+  unfold nodeFromBytesConsumed at hd
+  cases hn : nodeFromStream b [.sexp] [] with
+  | error e => rw [hn] at hd; cases hd
+  | ok r =>
+    obtain ⟨T, R⟩ := r
+    rw [hn] at hd
+    simp only [Except.ok.injEq, Prod.mk.injEq] at hd
+    obtain ⟨rfl, rfl⟩ := hd
+    unfold isCanonicalSerialization at hc
+    have hn' : nodeFromStream (List.drop 0 (b.take (b.length - R.length)) ++ b.drop (b.length - R.length))
+        [.sexp] [] = .ok (T, R) := by
+      rw [List.drop_zero, List.take_append_drop]; exact hn
+    obtain ⟨t, f', _, hat, hle, hsplit, hn2, hc2⟩ := canon_inv _ _ 0 0 _ [] [] T R hc hn'
+    rw [nodeFromStream] at hn2
+    simp only [Except.ok.injEq, Prod.mk.injEq] at hn2
+    obtain ⟨rfl, _⟩ := hn2
+    cases f' with
+    | zero => simp [isCanonicalGo] at hc2
+    | succ f' =>
+      rw [isCanonicalGo] at hc2
+      simp only [beq_self_eq_true, if_true, Except.ok.injEq, beq_iff_eq, Nat.zero_add] at hc2
+      refine ⟨hat, ?_⟩
+      rw [List.drop_zero, Nat.zero_add, ← hc2, List.drop_length, List.append_nil] at hsplit
+      exact hsplit.symm
+
+/-! ### non-vacuity and samples -/
+
+example : (Tree.pair (.atom [1]) (.pair (.atom []) (.atom (List.replicate 70 0xaa)))).atomsBelow (2 ^ 34) := by
+  decide
+example : serSpec (.pair (.atom [1]) (.pair (.atom []) (.atom [0x80, 0, 0]))) =
+    [0xff, 1, 0xff, 0x80, 0x83, 0x80, 0, 0] := by decide
+example : atomEnc (List.replicate 64 7) = 0xc0 :: 0x40 :: List.replicate 64 7 := by decide
+example : ∃ b t n, nodeFromBytesConsumed b = .ok (t, n) ∧ isCanonicalSerialization (b.take n) = .ok true :=
+  ⟨serSpec (.pair (.atom [1]) (.atom [])) ++ [0x55], .pair (.atom [1]) (.atom []), 3,
+    de_ser_consumed _ (by decide) _, ser_canonical (.pair (.atom [1]) (.atom [])) (by decide)⟩
 
 end Clvm.Props.C15
